@@ -293,6 +293,39 @@ def part_stubbed(ctx, cls, rows, n_runs, whole_table):
         check_run(ctx, kind, l, fr, rows, impl, o)
 
 
+def part_reuse(ctx, cls, rows, n):
+    """the same list object handed to two runs (settings.countries of a YAML file with several simulations, run_many_options): the second run must
+    select what the first selected and the caller's list must come back unchanged"""
+    rng = ctx.rng
+    codes = [r[0] for r in rows]
+    for _ in range(n):
+        kind, l = gen_list(rng, codes, rng.choice(["excl", "excl", "incl", "mixed"]), big=True)
+        fr = gen_fracs(rng, rows, 0.0)
+        shared = list(l)
+        outs = []
+        for rep in range(2):
+            stub = Stub(fr)
+            orig = cls.run_optimizer_for_country
+            cls.run_optimizer_for_country = lambda self, *a, _st=stub, **k: _st(self, *a, **k)
+            try:
+                with ctx.quiet():
+                    world, net_pop, net_fed, results = cls().run_model_no_trade(
+                        title="verif_reuse", create_pptx_with_all_countries=False, show_country_figures=False, show_map_figures=False,
+                        add_map_slide_to_pptx=False, scenario_option=dict(OPTION), countries_list=shared, return_results=True)
+            finally:
+                cls.run_optimizer_for_country = orig
+            outs.append((list(stub.calls), float(net_pop), float(net_fed)))
+        case = {"kind": kind, "countries_list": l[:12], "n_list": len(l)}
+        if shared != l:
+            ctx.count("callers-countries-list-modified")   # not a clause of C15 by itself; what counts is what the next run then selects
+            case = dict(case, list_after_first_run=shared[:12])
+        if outs[0] != outs[1]:
+            ctx.violation("selection-changes-on-reuse", "the same countries_list object selects %d countries in the first run and %d in the second (aggregate %r vs %r)" % (
+                len(outs[0][0]), len(outs[1][0]), outs[0][2] / max(outs[0][1], 1.0), outs[1][2] / max(outs[1][1], 1.0)), case)
+        ctx.case(("reuse", tuple(l)), nontrivial=len(outs[0][0]) > 0, sample=dict(case, ran=len(outs[0][0])))
+        ctx.count("list-reused-twice")
+
+
 def part_deep_stub(ctx, cls, rows, n_runs):
     """only the three-round run itself is replaced (ScenarioRunner.run_and_analyze_scenario returns an object carrying a prepared percent fed):
     run_optimizer_for_country — the percent -> fraction conversion — and set_depending_on_option run for real"""
@@ -385,6 +418,7 @@ def correspondence(ctx):
     part_selection(ctx, cls(), codes, ctx.budget(2000, 20000))
     part_stubbed(ctx, cls, rows, ctx.budget(260, 4000), ctx.budget(25, 300))
     part_deep_stub(ctx, cls, rows, ctx.budget(40, 600))
+    part_reuse(ctx, cls, rows, ctx.budget(12, 150))
     if not ctx.quick:
         rng = ctx.rng
         small = [r[0] for r in sorted(rows, key=lambda r: r[2])[:60]]
